@@ -152,10 +152,19 @@ class GraphRun:
         self.slots = []
 
     def close(self):
-        CALLS.pop(self.rid, None)
+        CALLS.pop(getattr(self, "rid", None), None)
+
+    def _rid(self):
+        """Run id under which the node functions report their evaluations (subclasses with their own __init__ keep a
+        plain `calls` list: it is registered on first use)."""
+        if not hasattr(self, "rid"):
+            _RID[0] += 1
+            self.rid = _RID[0]
+            CALLS[self.rid] = self.calls
+        return self.rid
 
     def _fn(self, i, kind, seeded=False):
-        rid = self.rid
+        rid = self._rid()
 
         def fn(*xs, seed=None):
             _check(xs)
@@ -166,7 +175,7 @@ class GraphRun:
         return fn
 
     def _dist(self, i, kind):
-        rid = self.rid
+        rid = self._rid()
 
         class FakeDist:
             def __init__(self, *params):
